@@ -171,4 +171,13 @@ CLAIMED['C17'] = (
     'DESIGN.md 3/C17',
 )
 
+CLAIMED['C18'] = (
+    'two-sort (label / position) type inference over the five MDCEV modules, seeded from definitions (index_to_key, key_to_index, API parameters), plus an ownership rule for array parameters (ast)',
+    'Decides the clause "whatever integer labels the alternatives carry": every subscript, comparison and keyword argument whose operands can be typed (140 today) respects the two sorts - '
+    'label-keyed containers are indexed by labels, positional arrays (epsilon, consumptions, x, bounds) by positions obtained through key_to_index / enumerate(index_to_key); a label-keyed '
+    'dictionary is flattened only in the order of index_to_key; key_to_index is built as the inverse of index_to_key; no method modifies a caller-owned array of error terms in place. '
+    'Not decided: KKT conditions, budget exhaustion, optimality, agreement of utility/derivative/inverse formulas (numerical).',
+    'DESIGN.md 3/C18',
+)
+
 NOT_APPLICABLE = {f'C{i:02d}': WIP for i in range(1, 20)}
